@@ -120,6 +120,14 @@ def rules(ck, P):
     from . import c04 as _c04
     _c04.override_order_rule(ck, P)
     server_wiring_rule(ck, P)
+    # the body of a response is the stored tile passed through the codec leaves whenever it has to be decoded or re-encoded: the leaf
+    # obligations of C04 (whole payload, every path, input = the blob) are part of this check
+    from .report import Check as _Check
+    tmp = _Check("C04", silent=True)
+    _c04.rules(tmp, P)
+    leafs = [o for o in tmp.obligations if o["rule"] == "E-COMP-LEAF"]
+    ck.obligations.extend(leafs)
+    ck.anchor("E-COMP-LEAF", "codec leaf obligations (shared with C04)", leafs, 10)
     leaves = comp.leaf_summaries(P)
     # ---------------- E-COMP-OPT
     q = UTIL + "optimize_compression"
